@@ -221,10 +221,10 @@ func (d *Driver) load() error {
 		return fmt.Errorf("load errors (harness does not compile against the current tree?):\n  %s", strings.Join(errs, "\n  "))
 	}
 	prog, _ := ssautil.AllPackages(pkgs, ssa.InstantiateGenerics)
-	for _, p := range prog.AllPackages() {
-		if strings.HasPrefix(p.Pkg.Path(), modPath) {
-			p.Build()
-		}
+	tb := time.Now()
+	prog.Build() // everything up front: lazy building from several workers would race
+	if os.Getenv("GOSX_DEBUG") != "" {
+		fmt.Fprintf(os.Stderr, "ssa build: %.1fs\n", time.Since(tb).Seconds())
 	}
 	d.prog = prog
 	d.pkgs = pkgs
